@@ -590,13 +590,15 @@ func (sw *SessionWindow) SetCallback(callback func([]types.Row)) {
 // held (the "Locked" convention — re-entering the non-reentrant mutex would
 // deadlock). Returns true if the event was absorbed into a triggered session.
 func (sw *SessionWindow) handleLateData(row types.Row) bool {
-	for _, info := range sw.triggeredSessions {
-		if info.session.slot.Contains(row.Timestamp) {
-			// Append the late event before re-emitting so the update includes it.
-			info.session.data = append(info.session.data, row)
-			sw.triggerLateUpdateLocked(info.session)
-			return true
-		}
+	// Only the triggered session of the event's own key may absorb it: sessions
+	// are per key, and another key's session covering the same time span must
+	// not receive this event.
+	key := extractSessionCompositeKey(row.Data, sw.config.GroupByKeys)
+	if info, ok := sw.triggeredSessions[key]; ok && info.session.slot.Contains(row.Timestamp) {
+		// Append the late event before re-emitting so the update includes it.
+		info.session.data = append(info.session.data, row)
+		sw.triggerLateUpdateLocked(info.session)
+		return true
 	}
 	return false
 }
